@@ -14,6 +14,8 @@ import re
 import shutil
 import subprocess
 import sys
+import time
+import zlib
 from pathlib import Path
 
 from vf import env
@@ -128,7 +130,7 @@ def check_case(ctx, cr, out_name, write_log, rng, tier, max_subsets):
         rng.shuffle(rest)
         subsets = keep + rest[: max(0, max_subsets - len(keep))]
     install_hook()
-    for sub in subsets:
+    for sub_i, sub in enumerate(subsets):
         ctx.case()
         case = {**base_case, "subset": sub}
         cli_runs.clear_outputs(cr)
@@ -146,7 +148,13 @@ def check_case(ctx, cr, out_name, write_log, rng, tier, max_subsets):
             if not content[n]:
                 ctx.count("no-clobber:empty-pre-existing-file")
             p.write_bytes(content[n])
-            os.utime(p, ns=(1_600_000_000_000_000_000, 1_600_000_000_000_000_000))
+            t_ns = 1_600_000_000_000_000_000
+            if (sub_i + zlib.crc32(n.encode())) % 3 == 0:
+                # a file dated ahead of the clock (skewed file server, restored archive): it collides all the same
+                t_ns = (int(time.time()) + 86_400 * (1 + zlib.crc32(n.encode()) % 3000)) * 1_000_000_000
+                ctx.count("no-clobber:pre-existing-file-dated-in-the-future")
+                ctx.count("no-clobber:future-dated:" + _ftype(n))
+            os.utime(p, ns=(t_ns, t_ns))
             st = p.stat()
             stat0[n] = (st.st_ino, st.st_mtime_ns, st.st_size)
         ctx.nontrivial([base_case["files"], out_name, write_log, sub])
